@@ -181,6 +181,12 @@ def run_containers(task, seed):
         def items(self):
             return self.d.items()
 
+    class ItemsGen(Getter):
+        """A headers object with a case-sensitive get() whose items() is a generator."""
+
+        def items(self):
+            yield from self.d.items()
+
     class RaisingGet:
         def get(self, k, default=None):
             raise RuntimeError("boom")
@@ -204,7 +210,12 @@ def run_containers(task, seed):
                    ("pairs", lambda v, key=key: [(key, v)], True),
                    ("tuple-pairs", lambda v, key=key: ((key, v),), True),
                    ("get+items", lambda v, key=key: GetItems({key: v}), True),
-                   ("get", lambda v, key=key: Getter({key: v}), key in casings[:2])]
+                   ("get", lambda v, key=key: Getter({key: v}), key in casings[:2]),
+                   # single-pass containers: they can be walked once
+                   ("iter-pairs", lambda v, key=key: iter([("X-Other", "1"), (key, v)]), True),
+                   ("gen-pairs", lambda v, key=key: (p for p in [(key, v), ("Z", "9")]), True),
+                   ("zip-pairs", lambda v, key=key: zip(["A", key], ["0", v]), True),
+                   ("items-gen", lambda v, key=key: ItemsGen({key: v}), True)]
     shapes += [("string", lambda v: "Retry-After: 120", False), ("int", lambda v: 7, False),
                ("raising-gen", lambda v: gen_raises(), False),
                ("raising-get", lambda v: RaisingGet(), False),
@@ -302,8 +313,8 @@ def run_end_to_end(task, seed):
     # installed the owned one in this worker process)
     hints = [0, 1, 3, 0.125, 0.375, "2", "80", 99.5, D_FUT, None]
     for h, jit, fr, dl, is_async, at, bs in itertools.product(
-            hints, [0.0, 2 * TAU, -1.0], [0.0, 0.5, 1.0], [None, 2 * TAU, 100.0], [False, True],
-            [None, 30.0], [None, "fine", "raises"]):
+            hints, [0.0, 2 * TAU, -1.0], [0.0, 0.5, 1.0], [None, 2 * TAU, 100.0, 86400.0 + 60.0],
+            [False, True], [None, 30.0], [None, "fine", "raises"]):
         if at is not None and is_async:
             continue  # asyncio.wait_for needs an event loop; the sync path shares the delay logic
         if bs is not None and (at is not None or fr != 0.5):
